@@ -84,6 +84,7 @@ func insHistory(id string, rng *rand.Rand, lt *layoutTables, actions []string) M
 	u, devices := cfg.build(func(uhppote.Driver) uhppote.Driver { return d })
 	ev = append(ev, M{"ev": "construct", "cfg": projCfgRouted(cfg)})
 	g := &G{r: rng, inDomain: true}
+	gOut := &G{r: rng, inDomain: false}
 	held := []*heldVal{}
 	serials := []uint32{target, 303986753, 201020304, 99}
 	ops := []string{"GetDevice", "GetCardByIndex", "GetStatus", "GetTimeProfile", "GetListener", "GetEvent", "PutCard", "SetTimeProfile", "AddTask", "ActivateKeypads", "GetDevices", "GetTime"}
@@ -132,6 +133,11 @@ func insHistory(id string, rng *rand.Rand, lt *layoutTables, actions []string) M
 			op := ops[rng.Intn(len(ops))]
 			serial := serials[rng.Intn(len(serials))]
 			cs := g.call(op, serial)
+			if rng.Intn(4) == 0 {
+				// arguments outside the accepted domain too (partial / nil maps, missing segments, zero dates): a refused
+				// call must leave its arguments alone just like an accepted one
+				cs = gOut.call(op, serial)
+			}
 			l, ok := lt.Rsp[op]
 			d.script = func(method string, req []byte) [][]byte {
 				if !ok {
